@@ -354,4 +354,38 @@ theorem answer_of_same_routes {R F : Router} (hR : Inv R) (hF : Inv F)
       | error e => exact Or.inl ⟨rfl, rfl⟩
       | ok m => exact Or.inr ⟨rule', hsf, hpat, rfl, rfl⟩
 
+/-- lookup by rule (`RadiRouter[{rule}]`) reads the `routes` map -/
+theorem matchPat_view {R : Router} (h : Inv R) (p : List Sym) :
+    ((R.matchPat p).bind R.obj?).map Route.view =
+      (R.routeAt (patStr p)).bind fun v => if v.syms = p then some v else none := by
+  cases hm : R.matchPat p with
+  | some id =>
+    obtain ⟨keys, he⟩ := (matchPat_iff h.wf p id).mp hm
+    obtain ⟨ps, id', r, hin, hr, heq⟩ := (mem_rules R _).mp ((h.den _).mp he)
+    simp only [Rule.mk.injEq] at heq
+    obtain ⟨hsy, rfl, _⟩ := heq
+    obtain ⟨r0, hr0, hps⟩ := h.keys ps id hin
+    rw [hr] at hr0; cases hr0
+    subst hsy
+    subst hps
+    rw [routeAt_of_mem h hin hr]
+    simp [hr, Route.view]
+  | none =>
+    simp only [Option.bind_none, Option.map_none]
+    cases hv : R.routeAt (patStr p) with
+    | none => rfl
+    | some v =>
+      simp only [Option.bind_some]
+      split
+      · rename_i hsy
+        exfalso
+        obtain ⟨id, r, hin, hr, hview⟩ := mem_of_routeAt hv
+        have hrs : r.syms = p := by rw [← hsy, ← hview]; rfl
+        have : (⟨p, id, r.params⟩ : Rule) ∈ denote R.tree :=
+          (h.den _).mpr ((mem_rules R _).mpr ⟨_, id, r, hin, hr, by rw [hrs]⟩)
+        rw [(matchPat_iff h.wf p id).mpr ⟨_, this⟩] at hm
+        cases hm
+      · rfl
+
+
 end Ombott.Router
